@@ -25,7 +25,7 @@ JMatch(d, x) ==
   ELSE IF x.k = "int" THEN d.k = "num" /\ d.isint /\ d.i = x.b
   ELSE IF x.k = "dbl" THEN d.k = "num" /\ d.f = x.b
   ELSE IF x.k = "intstr" THEN d.k = "str" /\ d.isint /\ d.i = x.b
-  ELSE IF x.k = "str" THEN d.k = "str" /\ d.b = x.b
+  ELSE IF x.k \in {"str", "b64"} THEN d.k = "str" /\ d.b = x.b          \* "b64": a string holding base64 text
   ELSE IF x.k = "arr" THEN d.k = "arr" /\ Len(d.e) = Len(x.e) /\ \A i \in 1..Len(x.e) : JMatch(d.e[i].v, x.e[i].v)
   ELSE /\ d.k = "obj" /\ Len(d.e) = Len(x.e)
        /\ \A i \in 1..Len(x.e) :
@@ -37,6 +37,12 @@ JMatchTail(d, x, np) ==
   /\ \A i \in 1..np : d.e[i].n = x.e[i].n /\ JMatch(d.e[i].v, x.e[i].v)
   /\ \A i \in (np + 1)..Len(x.e) : \E j \in (np + 1)..Len(d.e) : d.e[j].n = x.e[i].n /\ JMatch(d.e[j].v, x.e[i].v)
 
+\* features of a document that single out known-problematic inputs (used only to label reports)
+NegZeroBits == <<128, 0, 0, 0, 0, 0, 0, 0>>
+RECURSIVE HasNegZeroIntLit(_)
+HasNegZeroIntLit(d) == \/ d.k = "num" /\ d.isint /\ d.f = NegZeroBits
+                       \/ \E j \in 1..Len(d.e) : HasNegZeroIntLit(d.e[j].v)
+
 \* ---- standard base64 with padding ----
 B64Char(n) == IF n < 26 THEN 65 + n ELSE IF n < 52 THEN 97 + (n - 26) ELSE IF n < 62 THEN 48 + (n - 52) ELSE IF n = 62 THEN 43 ELSE 47
 RECURSIVE B64Enc(_)
@@ -46,4 +52,36 @@ B64Enc(bs) ==
   ELSE IF Len(bs) = 2 THEN <<B64Char(bs[1] \div 4), B64Char((bs[1] % 4) * 16 + (bs[2] \div 16)), B64Char((bs[2] % 16) * 4), 61>>
   ELSE <<B64Char(bs[1] \div 4), B64Char((bs[1] % 4) * 16 + (bs[2] \div 16)), B64Char((bs[2] % 16) * 4 + (bs[3] \div 64)), B64Char(bs[3] % 64)>>
        \o B64Enc(SubSeq(bs, 4, Len(bs)))
+\* inverse: [ok, b]; accepts exactly the standard alphabet with padding (as Go's StdEncoding)
+B64Val(c) == IF c >= 65 /\ c <= 90 THEN c - 65 ELSE IF c >= 97 /\ c <= 122 THEN c - 71 ELSE IF c >= 48 /\ c <= 57 THEN c + 4
+             ELSE IF c = 43 THEN 62 ELSE IF c = 47 THEN 63 ELSE -1
+RECURSIVE B64Dec(_)
+B64Dec(cs) ==
+  IF Len(cs) = 0 THEN [ok |-> TRUE, b |-> <<>>]
+  ELSE IF Len(cs) < 4 THEN [ok |-> FALSE, b |-> <<>>]
+  ELSE LET a == B64Val(cs[1]) b == B64Val(cs[2]) c == B64Val(cs[3]) d == B64Val(cs[4]) IN
+       IF a < 0 \/ b < 0 THEN [ok |-> FALSE, b |-> <<>>]
+       ELSE IF cs[3] = 61 THEN
+            (IF cs[4] = 61 /\ Len(cs) = 4 /\ b % 16 = 0 THEN [ok |-> TRUE, b |-> <<a * 4 + (b \div 16)>>] ELSE [ok |-> FALSE, b |-> <<>>])
+       ELSE IF c < 0 THEN [ok |-> FALSE, b |-> <<>>]
+       ELSE IF cs[4] = 61 THEN
+            (IF Len(cs) = 4 /\ c % 4 = 0 THEN [ok |-> TRUE, b |-> <<a * 4 + (b \div 16), (b % 16) * 16 + (c \div 4)>>] ELSE [ok |-> FALSE, b |-> <<>>])
+       ELSE IF d < 0 THEN [ok |-> FALSE, b |-> <<>>]
+       ELSE LET r == B64Dec(SubSeq(cs, 5, Len(cs))) IN
+            IF r.ok THEN [ok |-> TRUE, b |-> <<a * 4 + (b \div 16), (b % 16) * 16 + (c \div 4), (c % 4) * 64 + d>> \o r.b] ELSE r
+
+\* an expected value rendered as the dump of its canonical text (floats of integer literals are not
+\* computable here: f is left empty and only used when the source was a double)
+RECURSIVE XD(_)
+XD(x) ==
+  LET base == [k |-> "null", b |-> <<>>, isint |-> FALSE, i |-> <<>>, f |-> <<>>, fint |-> FALSE, fi |-> <<>>, e |-> <<>>] IN
+  IF x.k = "null" THEN base
+  ELSE IF x.k = "bool" THEN [base EXCEPT !.k = "bool", !.b = x.b]
+  ELSE IF x.k = "int" THEN [base EXCEPT !.k = "num", !.isint = TRUE, !.i = x.b, !.fint = TRUE, !.fi = x.b]
+  ELSE IF x.k = "dbl" THEN [base EXCEPT !.k = "num", !.f = x.b]
+  ELSE IF x.k = "intstr" THEN [base EXCEPT !.k = "str", !.b = <<63>>, !.isint = TRUE, !.i = x.b]   \* digits not computable here: placeholder content
+  ELSE IF x.k \in {"str", "b64"} THEN [base EXCEPT !.k = "str", !.b = x.b]
+  ELSE [base EXCEPT !.k = x.k,
+        !.e = [j \in 1..Len(x.e) |-> [n |-> IF x.e[j].nk = "str" THEN x.e[j].n ELSE <<>>, nisint |-> x.e[j].nk = "int",
+                                       ni |-> IF x.e[j].nk = "int" THEN x.e[j].n ELSE <<>>, v |-> XD(x.e[j].v)]]]
 =============================================================================
